@@ -33,14 +33,15 @@ LEVEL_TEXT = ("Theorems (Coq, over the reals, every valid table N >= 3, every pr
               "for limits inside the tabulated domain Integrate(x1,x2) is the Riemann integral (Coquelicot RInt) of c*curve, hence additive, antisymmetric, bounded by "
               "Local_Minimum/Maximum times the length, and its derivative in the upper limit is Interpolate; Local_Minimum/Maximum(x1,x2) are lower/upper bounds of "
               "c*curve on [x1,x2] and are attained there; Global_Minimum/Maximum likewise on the whole domain (1-D) and on every cell of the grid (2-D); all scale "
-              "with the prefactor as Interpolate does. The same Gallina terms are extracted and run against the C++ classes on every run, and every clause is "
+              "with the prefactor as Interpolate does; the default-constructed objects are proved to be such objects of a valid all-zero table. The same Gallina terms are extracted and run against the C++ classes on every run, and every clause is "
               "evaluated on the implementation's output (S4: exact reference for the extrema, Gauss quadrature for the integrals, dense sampling). "
-              "Not a theorem: limits in the 1 % extrapolation zone outside the table (the cubic need not be monotone there; probed by S4 only); floating-point rounding.")
+              "Not a theorem: the objects made by the data-table constructors (model by specification, tied by correspondence and S4 only); limits in the 1 % extrapolation zone outside the table (the cubic need not be monotone there; probed by S4 only); floating-point rounding.")
 LEVEL_NOTE = ("Coq 8.16.1 kernel; theorems over R use the standard library's real-number axioms and Coquelicot; hand-written model tied by differential "
               "correspondence (extraction with ExtrOcamlBasic only); std::min_element/max_element modelled as first smallest / first largest by a fold")
 TRUSTED = ["std::min_element / std::max_element are modelled by a left fold keeping the first smallest / largest element",
            "std::pow with exponents 2.0, 3.0, 4.0 is modelled by npowi (powerRZ on R; x*x resp. libm pow on doubles, as g++ -O1 compiles it)",
-           "every query is made on a copy of the current object (the search state machine is property C09)"]
+           "std::sort / std::unique in the 2-D data-table constructor are modelled by specification (insertion sort; first element of every run of equal values); no NaN or -0.0 among the abscissae",
+           "the model answers every query from the search state of a fresh object (the search state machine is property C09); the harness asks copies (t1, d1, t0, t2, d2, z2) or the one live object (h1, e1, h0, h2)"]
 ASSUMPTIONS = ["extremum and integral theorems assume limits inside [x_0, x_{N-1}]; the 1 % extrapolation zone is covered by correspondence and S4 only"]
 
 NS = 48   # dense sampling of an extremum query
@@ -332,7 +333,7 @@ def generate(rng, tier):
         sx, sy = scaled(xd, xs), scaled(yd, ys); ops = []
         for _blk in range(rng.choice([1, 2, 3])):
             if fm == "edge": ops += split_pref(rng, rng.choice([-1, 1]) * 10 ** rng.uniform(-3, 6) / DBL_MAX, _blk == 0)
-            elif fm == "subnormal" and rng.random() < 0.5: ops += split_pref(rng, rng.choice([-1, 1]) * 10 ** rng.uniform(280, 300), False)
+            elif fm == "subnormal" and (_blk > 0 or rng.random() < 0.5): ops += split_pref(rng, rng.choice([-1, 1]) * 10 ** rng.uniform(280, 300), False)
             else: ops += pref_ops(rng)
             ops.append(f"Z {rng.choice([4, 9])}"); ops += ["g", "G"]
             x = sx[0] + (sx[-1] - sx[0]) * rng.random(); y = sy[0] + (sy[-1] - sy[0]) * rng.random()
@@ -552,6 +553,7 @@ def pred_1d(c, d, vals):
     for q, cc, n, sc in walk(d):
         o = vals[k:k + n]; k += n
         if len(o) < n: out.append(("1d:shape", "too few output values")); break
+        if not math.isfinite(cc): continue      # the prefactor history itself overflowed: no statement
         if any(isinstance(v, float) and math.isnan(v) for v in o) and math.isfinite(cc):
             out.append((q[0] + ":nan", f"{q[0]} returned NaN under the prefactor {cc!r}")); continue
         op = q[0]
@@ -621,6 +623,7 @@ def pred_2d(c, d, vals):
     for q, cc, n, sc in walk(d):
         o = vals[k:k + n]; k += n
         if len(o) < n: out.append(("2d:shape", "too few output values")); break
+        if not math.isfinite(cc): continue      # the prefactor history itself overflowed: no statement
         lo, hi = min(cc * min(flat), cc * max(flat)), max(cc * min(flat), cc * max(flat))
         if q[0] in ("g", "Z") and o[0] != lo: out.append(("2d:global-min-reference", f"Global_Minimum = {o[0]!r} under prefactor {cc!r}; smallest scaled grid value {lo!r}"))
         if q[0] == "G" and o[0] != hi: out.append(("2d:global-max-reference", f"Global_Maximum = {o[0]!r} under prefactor {cc!r}; largest scaled grid value {hi!r}"))
